@@ -206,6 +206,10 @@ func family(name string) string {
 		return "meshops"
 	case strings.HasPrefix(name, "repeat"):
 		return "repeat"
+	case strings.HasPrefix(name, "meshops."), strings.HasPrefix(name, "gausops."):
+		return "meshops-func"
+	case strings.HasPrefix(name, "primitives."):
+		return "primitive"
 	}
 	return "writer"
 }
@@ -213,7 +217,7 @@ func family(name string) string {
 // opFamily extracts the operation name from a history line for the class.
 func opFamily(line string) string {
 	for _, tok := range strings.Fields(line) {
-		if strings.HasPrefix(tok, "Mesh.") || strings.HasPrefix(tok, "Transform(") || strings.HasPrefix(tok, "repeat.") || strings.Contains(tok, ".Write") {
+		if strings.HasPrefix(tok, "Mesh.") || strings.HasPrefix(tok, "Transform(") || strings.HasPrefix(tok, "repeat.") || strings.Contains(tok, ".Write") || strings.HasPrefix(tok, "meshops.") || strings.HasPrefix(tok, "gausops.") || strings.HasPrefix(tok, "primitives.") {
 			return tok
 		}
 	}
